@@ -18,7 +18,11 @@ from mc.lexer import LexError, lex
 from pypika_tortoise import AliasedQuery, Field, Query, Table
 from pypika_tortoise import functions as FN
 from pypika_tortoise.enums import JoinType
-from pypika_tortoise.terms import Case, SystemTimeValue, Tuple
+from pypika_tortoise.terms import Case, Criterion, SystemTimeValue, Tuple
+from mc import zoo as _zoo
+
+ZOO = _zoo.term_zoo()[0]
+ZOO_BY = {n_: (k_, b_) for n_, k_, b_ in ZOO}
 
 PROPERTY = "C11"
 
@@ -113,10 +117,19 @@ def select_cases():
     for sh in SHAPES:
         for slot in SLOTS:
             yield {"k": "correlated", "shapes": [sh], "slot": slot}
+        # a local PREWHERE next to the correlated WHERE (and the other way round), in both call orders
+        for pre in ("pre_local_first", "pre_local_last", "pre_foreign_first", "pre_foreign_last"):
+            yield {"k": "correlated", "shapes": [sh], "slot": "eq", "pre": pre}
         # the outer row source is not a plain table
         for outer in ("aliased", "schema_aliased", "subquery", "cte", "setop"):
             for slot in ("eq", "eq_swapped", "between_lo", "fn_arg", "chain3"):
                 yield {"k": "correlated", "shapes": [sh], "slot": slot, "outer": outer}
+    # every term kind with the outer column in each of its operand slots
+    for zname, n, _b in ZOO:
+        if n == 0 or zname in ("QueryBuilder", "_SetOperation", "ContainsCriterion.sub", "Star", "Values", "AtTimezone"):
+            continue
+        for slot in range(n):
+            yield {"k": "correlated_zoo", "shapes": ["plain"], "term": zname, "slot": slot}
     for order in ("inner_first", "outer_first"):
         for col in ("same", "different"):
             for via in ("ctor", "as_after_use"):
@@ -182,6 +195,11 @@ SLOTS = {
     "like": lambda i, o: i.like(o),
     "bitwiseand": lambda i, o: (i + o).bitwiseand(3),
     "agg_filter": lambda i, o: i == FN.Coalesce(i, o),
+    "extract": lambda i, o: FN.Extract("YEAR", o) == i,
+    "extract_expr": lambda i, o: FN.Extract("MONTH", FN.Coalesce(o, i)) == 3,
+    "cast": lambda i, o: FN.Cast(o, "INT") == i,
+    "upper_lower": lambda i, o: FN.Upper(FN.Lower(o)) == i,
+    "concat": lambda i, o: FN.Concat(i, "-", o) == "x",
 }
 _LAST_SRCS = []
 
@@ -277,12 +295,38 @@ def build(case, Q):
         else:
             outer, oq, o_qual = Table("outer1"), Q._builder(), False
         of = lambda r: Field("outer1__" + r, table=outer)  # noqa
-        inner = q.from_(a.obj).select(a.f("sel")).where(SLOTS[case.get("slot", "eq")](a.f("whr"), of("corr")))
+        inner = q.from_(a.obj).select(a.f("sel"))
+        pre = case.get("pre")
+        local, foreign = a.f("whr") > 0, SLOTS[case.get("slot", "eq")](a.f("whr"), of("corr"))
+        if pre == "pre_local_first":
+            inner = inner.prewhere(local).where(foreign)
+        elif pre == "pre_local_last":
+            inner = inner.where(foreign).prewhere(local)
+        elif pre == "pre_foreign_first":
+            inner = inner.prewhere(foreign).where(local)
+        elif pre == "pre_foreign_last":
+            inner = inner.where(local).prewhere(foreign)
+        else:
+            inner = inner.where(foreign)
         stmt = oq.from_(outer).select(of("sel")).where(of("whr").isin(inner))
         expect(srcs, ["sel", "whr"], True)  # the inner query refers to a row source outside its own sources
         exp["outer1__corr"] = (True, "outer1")
         exp["outer1__sel"] = (o_qual, "outer1")
         exp["outer1__whr"] = (o_qual, "outer1")
+        return stmt, exp
+    if k == "correlated_zoo":
+        a = srcs[0]
+        outer = Table("outer1")
+        n, b = ZOO_BY[case["term"]]
+        flds = [(Field("outer1__corr", table=outer) if i == case["slot"] else a.f("whr")) for i in range(n)]
+        term = b(flds)
+        crit = term if isinstance(term, Criterion) else (term == 1)
+        inner = q.from_(a.obj).select(a.f("sel")).where(crit)
+        stmt = Q.from_(outer).select(outer.field("outer1__sel")).where(outer.field("outer1__whr").isin(inner))
+        expect(srcs, ["sel", "whr"], True)
+        exp["outer1__corr"] = (True, "outer1")
+        exp["outer1__sel"] = (False, None)
+        exp["outer1__whr"] = (False, None)
         return stmt, exp
     if k == "correlated_self":
         # the inner source is the outer table under an alias: same table name, same column name on both sides
